@@ -19,6 +19,12 @@
 //	    forwards field for field (marshalled bytes incl. key and unknown fields) with
 //	    what the fake peer sent.
 //
+//	{"a":"idontwant","p":peer,"ids":[names],"own":true,"next":[k,...]}
+//	    IDONTWANT for messages the node has NOT published yet: the j-th name is the k_j-th message the node
+//	    will publish from now on (its id is the node's peer id followed by its sequence number, which counts
+//	    up from the construction time of the node: predictable under virtual time). The step line carries
+//	    the action as given (PublishTrace builds its expectation from the names).
+//
 // cfg "sign":"lax" builds the node with the LaxSign policy (unsigned messages are
 // accepted). Everything else goes to world.Do. The driver never judges;
 // spec/publish/PublishTrace.tla does.
@@ -192,6 +198,7 @@ func resetArgs(cfg world.Config) M {
 	p := cfg.Params
 	return M{"score": cfg.Score, "flood": cfg.FloodPublish, "D": p.D, "Dlo": p.Dlo, "Dhi": p.Dhi, "Dscore": p.Dscore, "Dout": p.Dout,
 		"fanoutTTLMs": p.FanoutTTL.Milliseconds(), "hbMs": p.HeartbeatInterval.Milliseconds(), "oppTicks": int(p.OpportunisticGraftTicks),
+		"maxIDWLen": p.MaxIDontWantLength, "maxIDWMsgs": p.MaxIDontWantMessages, "idwTTL": p.IDontWantMessageTTL, "idwThreshold": p.IDontWantMessageThreshold,
 		"thr": M{"gossip": -2, "publish": -4, "graylist": -6, "acceptPX": 2, "oppGraft": 1}}
 }
 
@@ -241,9 +248,35 @@ func runScenario(t *testing.T, out *vh.Out, idx int, s scenario) {
 		cfg := configFrom(s.Cfg)
 		w := world.New(t, out, idx, cfg, resetWith(s.Cfg, cfg))
 		defer w.Close()
+		// PubSub.counter starts at the construction time; no virtual time has passed since
+		seqBase := uint64(time.Now().UnixNano())
+		published := uint64(0) // messages the node has been asked to publish (each takes one sequence number)
 		for _, a := range s.Acts {
+			switch gets(a, "a") {
+			case "publish":
+				published++
+			case "batch":
+				l, _ := a["msgs"].([]any)
+				published += uint64(len(l))
+			}
 			if gets(a, "a") == "batch" {
 				batch(t, w, a)
+				continue
+			}
+			if gets(a, "a") == "idontwant" && getb(a, "own") {
+				f := w.Fakes[gets(a, "p")]
+				var ids []string
+				l, _ := a["next"].([]any)
+				for _, x := range l {
+					k, _ := x.(float64)
+					seq := make([]byte, 8)
+					binary.BigEndian.PutUint64(seq, seqBase+published+uint64(k))
+					ids = append(ids, string(w.H.ID())+string(seq))
+				}
+				w.Guard()
+				f.Send(hnet.IDontWantRPC(ids...))
+				hnet.Settle(15 * time.Millisecond)
+				w.Emit(a)
 				continue
 			}
 			if gets(a, "a") == "msg" && isVariant(a) {
